@@ -55,6 +55,9 @@ type Exec struct {
 	choiceSeq    []int
 	explicitIn   []int
 	concreteMode bool
+	allObjs      []*Object
+	allMaps      []*MapV
+	allChans     []*ChanV
 	readings     []*Term
 	inInit       int
 	ld           *Loaded
@@ -570,14 +573,18 @@ func (ex *Exec) step(fr *Frame, ins ssa.Instruction) {
 		fr.locals[x] = &SliceV{Arr: o, Len: int(n.SignedVal()), Cap: int(c.SignedVal())}
 	case *ssa.MakeMap:
 		ex.nextObj++
-		fr.locals[x] = &MapV{ID: ex.nextObj, Entries: map[string]*mapEntry{}}
+		mv := &MapV{ID: ex.nextObj, Entries: map[string]*mapEntry{}}
+		ex.allMaps = append(ex.allMaps, mv)
+		fr.locals[x] = mv
 	case *ssa.MakeChan:
 		sz := ex.get(fr, x.Size).(*Term)
 		if !sz.IsConst() {
 			panic(unsupported("make(chan, symbolic)"))
 		}
 		ex.nextObj++
-		fr.locals[x] = &ChanV{ID: ex.nextObj, Cap: int(sz.SignedVal()), Elem: x.Type().Underlying().(*types.Chan).Elem(), Label: "chan@" + ex.curPos()}
+		cv := &ChanV{ID: ex.nextObj, Cap: int(sz.SignedVal()), Elem: x.Type().Underlying().(*types.Chan).Elem(), Label: "chan@" + ex.curPos()}
+		ex.allChans = append(ex.allChans, cv)
+		fr.locals[x] = cv
 	case *ssa.MapUpdate:
 		m := ex.get(fr, x.Map).(*MapV)
 		if m.Nil {
